@@ -4,11 +4,13 @@ import Cvss.Proofs.Parse4Defect
 
 For every grammatical vector (witness list `w`), every defect kind of `Spec.Defect` and every position:
 the parser returns exactly the error value the Spec promises — `ErrInvalidCVSSHeader` (1) for a damaged or
-missing header, `ErrInvalidMetricValue` (4) for an illegal value, `ErrInvalidMetricOrder` (3) for swapped
-neighbours / a repeated metric / an unknown abbreviation, `ErrTooShortVector` (2) for a truncation inside
+missing header, `ErrInvalidMetricValue` (4) for an illegal value, `ErrInvalidMetricOrder` (3) for a misplaced
+metric (swapped neighbours `swap i`, and in general `move i j`: any one element taken out and put back at any
+other position) / a repeated metric / an unknown abbreviation, `ErrTooShortVector` (2) for a truncation inside
 the base group. All defect kinds hold for the model at full strength (no `_partial`), including the corner
-cases: swap of two optional metrics, a repeat inserted directly before the original, an unknown element
-with an empty abbreviation, insertion at the very end, truncation to zero elements.
+cases: swap of two optional metrics, a base metric moved to the very end, the last optional metric moved to the
+front, a repeat inserted directly before the original, an unknown element with an empty abbreviation, insertion
+at the very end, truncation to zero elements.
 -/
 namespace C18.V4
 open Spec (Pair b Defect)
@@ -60,6 +62,13 @@ theorem swapped_neighbours {w : List Pair} (hw : ∃ s0, Spec.V4.Witness s0 w) {
   obtain ⟨s0, hs0⟩ := hw
   exact err_swap K (witness_iff.mp hs0).2 hp hq
 
+/-- misplaced: element `i` taken out and put back so that it is element `j ≠ i` of the result -/
+theorem moved_metric {w : List Pair} (hw : ∃ s0, Spec.V4.Witness s0 w) {i j : Nat} {p : Pair}
+    (hp : w[i]? = some p) (hji : j ≠ i) (hj : j < w.length) :
+    parseK K (Spec.V4.header ++ body (Spec.insertAt (w.eraseIdx i) j p)) = .err Model.eOrder := by
+  obtain ⟨s0, hs0⟩ := hw
+  exact err_move K (witness_iff.mp hs0).2 hp hji hj
+
 theorem truncated {w : List Pair} (hw : ∃ s0, Spec.V4.Witness s0 w) {n : Nat} (hn : n < 11) :
     parseK K (Spec.V4.header ++ body (w.take n)) = .err Model.eTooShort := by
   obtain ⟨s0, hs0⟩ := hw
@@ -87,11 +96,32 @@ example : ((Defect.repeated 11 11 (b "P")).apply .v40 w0).isSome = true := by de
 example : ((Defect.unknown 14 [] (b "H")).apply .v40 w0).isSome = true := by decide
 example : ((Defect.swap 11).apply .v40 w0).isSome = true := by decide
 example : ((Defect.truncate 0).apply .v40 w0).isSome = true := by decide
+example : ((Defect.move 0 13).apply .v40 w0).isSome = true := by decide
+/-- `move` is applicable exactly for `i < length`, `j < length`, `j ≠ i` (here: all 14·13 pairs) -/
+example : ∀ i < 16, ∀ j < 16, ((Defect.move i j).apply .v40 w0).isSome = (decide (i < 14) && decide (j < 14) && decide (j ≠ i)) := by
+  decide
+/-- `move i (i+1)` and `move (i+1) i` are `swap i` -/
+example : (Defect.move 11 12).apply .v40 w0 = (Defect.swap 11).apply .v40 w0 ∧
+    (Defect.move 12 11).apply .v40 w0 = (Defect.swap 11).apply .v40 w0 := by decide
 
 /-- swap of two optional metrics (`E`,`CR`), evaluated on the model with the generated `Set` -/
 example : (Defect.swap 11).apply .v40 w0 =
     some (b "CVSS:4.0/AV:N/AC:L/AT:N/PR:N/UI:N/VC:H/VI:H/VA:H/SC:N/SI:N/SA:N/CR:H/E:A/U:Red", (3, [])) := by decide
 example : Model.parse40 (b "CVSS:4.0/AV:N/AC:L/AT:N/PR:N/UI:N/VC:H/VI:H/VA:H/SC:N/SI:N/SA:N/CR:H/E:A/U:Red") =
+    .err Model.eOrder := by decide
+/-- a base metric moved to the very end; the last optional metric moved to the front; an optional metric moved
+    two places back — the defective strings and the model's answers -/
+example : (Defect.move 0 13).apply .v40 w0 =
+    some (b "CVSS:4.0/AC:L/AT:N/PR:N/UI:N/VC:H/VI:H/VA:H/SC:N/SI:N/SA:N/E:A/CR:H/U:Red/AV:N", (3, [])) := by decide
+example : Model.parse40 (b "CVSS:4.0/AC:L/AT:N/PR:N/UI:N/VC:H/VI:H/VA:H/SC:N/SI:N/SA:N/E:A/CR:H/U:Red/AV:N") =
+    .err Model.eOrder := by decide
+example : (Defect.move 13 0).apply .v40 w0 =
+    some (b "CVSS:4.0/U:Red/AV:N/AC:L/AT:N/PR:N/UI:N/VC:H/VI:H/VA:H/SC:N/SI:N/SA:N/E:A/CR:H", (3, [])) := by decide
+example : Model.parse40 (b "CVSS:4.0/U:Red/AV:N/AC:L/AT:N/PR:N/UI:N/VC:H/VI:H/VA:H/SC:N/SI:N/SA:N/E:A/CR:H") =
+    .err Model.eOrder := by decide
+example : (Defect.move 11 13).apply .v40 w0 =
+    some (b "CVSS:4.0/AV:N/AC:L/AT:N/PR:N/UI:N/VC:H/VI:H/VA:H/SC:N/SI:N/SA:N/CR:H/U:Red/E:A", (3, [])) := by decide
+example : Model.parse40 (b "CVSS:4.0/AV:N/AC:L/AT:N/PR:N/UI:N/VC:H/VI:H/VA:H/SC:N/SI:N/SA:N/CR:H/U:Red/E:A") =
     .err Model.eOrder := by decide
 /-- a repeat inserted directly before the original -/
 example : Model.parse40 (b "CVSS:4.0/AV:N/AC:L/AT:N/PR:N/UI:N/VC:H/VI:H/VA:H/SC:N/SI:N/SA:N/E:P/E:A/CR:H/U:Red") =
